@@ -103,7 +103,8 @@ def cdcnLine (j : Json) : String :=
      else if !valEq implV (parseVal (fld j "expect")) then some "wrong-meaning" else none)
   let spec11b : Option String := if !bool j "inexact" then none else
     (if out == "ret" then some "inexact-literal-accepted" else none)
-  let spec := if pid == "C11" then (spec11.orElse fun _ => spec11b) else spec12
+  let spec11c : Option String := if has j "det" && !bool j "det" then some "result-depends-on-schedule" else none
+  let spec := if pid == "C11" then (spec11.orElse fun _ => spec11b.orElse fun _ => spec11c) else spec12
   let corr := if !scanOk then some "scanner" else if !corrParse then some "parser" else none
   verdict corr.isNone spec.isNone s!"{pid}/{spec.getD "ok"}/{str j "gen"}"
     s!"corr-break:{corr.getD "-"} model={parsedStr m} tokens={toks.length}"
